@@ -139,8 +139,9 @@ func IntFromString(str string, base int) (Object, error) {
 	}
 
 	// Detect leading zeros which Python doesn't allow using base 0
-	if base == 0 {
-		if len(s) > 1 && s[0] == '0' && (s[1] >= '0' && s[1] <= '9') {
+	// in a decimal literal unless it is zero ("00")
+	if base == 0 && convertBase == 10 {
+		if len(s) > 1 && s[0] == '0' && strings.Trim(s, "0") != "" {
 			goto error
 		}
 	}
